@@ -41,7 +41,10 @@ def check(run: Run) -> None:
     nodep = ("param", vc.pos_params[1])
     selfp = ("param", vc.pos_params[0])
     body = ("attr", ("attr", nodep, "func"), "body")
-    stack = ("attr", selfp, "_arg_map_list")
+    from ..lib import call_events, event_after, event_before, init_attr, reaches
+
+    STACK = init_attr(ctx, m, cls, lambda t: t == ("list", ()), "the parameter-map stack of _resolve_called_lambdas")
+    stack = ("attr", selfp, STACK)
 
     n_red = 0
     for s, n in fa.returns():
@@ -55,8 +58,10 @@ def check(run: Run) -> None:
                 n_red += 1
                 run.fail("C05.R1", vc, s, "the helper body is entered with generic_visit: only the children of the body are substituted, so a helper whose body is a bare parameter (def ident(a): return a) leaves an unbound name", "self.visit(lambda_node.body)", show(a))
                 _guard(run, fa, vc, s, nodep)
-            elif a in (nodep, ("gvisit", nodep)):
-                run.ok("C05.R3", vc, "non-inlinable call is returned intact / traversed")
+            elif a == ("gvisit", nodep):
+                run.ok("C05.R3", vc, "a call that is not inlined is traversed")
+            elif a == nodep:
+                run.fail("C05.R3", vc, s, "a call that is not inlined is returned without visiting its children: parameters of an enclosing helper that occur in its arguments (or in the body of the un-inlinable called lambda) stay un-substituted - unbound names in the query", "return self.generic_visit(node)", show(a), key="non-inlined call returned unvisited")
             else:
                 run.fail("C05.R3", vc, s, f"visit_Call returns {show(a)[:120]}: neither the substituted body nor the call itself", term=show(a))
     run.check(n_red == 1, "C05.R1", vc, vc.node, "exactly one reduction path", f"{n_red} reduction paths")
@@ -64,41 +69,42 @@ def check(run: Run) -> None:
         run.fail("C05.R3", vc, vc.node, "a path of visit_Call returns None: the call disappears from the query")
 
     # push / pop pairing around the body visit; arguments resolved before the push
-    pushes = [c for c in calls_in(vc) if isinstance(c.func, ast.Attribute) and c.func.attr == "append" and strip_sites(fa.term_of(c.func.value)) == stack]
-    pops = [c for c in calls_in(vc) if isinstance(c.func, ast.Attribute) and c.func.attr == "pop" and strip_sites(fa.term_of(c.func.value)) == stack]
-    bvis = [c for c in calls_in(vc) if isinstance(c.func, ast.Attribute) and c.func.attr in ("visit", "generic_visit") and c.args and fa.cfg.has_node(c) and strip_sites(fa.term_of(c.args[0])) == body]
+    evs = call_events(ctx, vc, lambda nm: nm in ("append", "pop", "visit", "generic_visit"))
+    pushes = [e for e in evs if e.name == "append" and e.recv == stack]
+    pops = [e for e in evs if e.name == "pop" and e.recv == stack]
+    bvis = [e for e in evs if e.name in ("visit", "generic_visit") and e.args and e.args[0] == body]
     ok = len(pushes) == 1 and len(pops) == 1 and len(bvis) == 1
     if ok:
-        p, b, q = cfg.node_of(pushes[0]), cfg.node_of(bvis[0]), cfg.node_of(pops[0])
-        ok = cfg.dominates(p, b) and cfg.dominates(b, q) and cfg.postdominates(q, b) and p is not b and b is not q
+        p, b, q = pushes[0], bvis[0], pops[0]
+        ok = event_before(ctx, vc, p, b) and event_before(ctx, vc, b, q) and event_after(ctx, vc, q, b) and p.call is not b.call and b.call is not q.call
     run.check(ok, "C05.R3", vc, vc.node, "parameter map pushed before and popped after the body is visited, on every path", "the helper's parameter map is not pushed before / popped after the visit of its body on every path: bindings leak into the rest of the query or are missing in the body")
     if len(pushes) == 1:
-        pn = cfg.node_of(pushes[0])
+        push = pushes[0]
+        at_push = stmt_of(push.call) if push.owner is vc else vc.node
         # the pushed map: parameter name -> resolved argument, complete before the push
-        mt = strip_sites(fa.term_of(pushes[0].args[0]))
+        mt = push.args[0] if push.args else ("top", "?")
         complete = mt[0] == "comp" and mt[1] == "DictComp"
-        arg_visits = []
-        for c in calls_in(vc):
-            if isinstance(c.func, ast.Attribute) and c.func.attr == "visit" and c.args and fa.cfg.has_node(c):
-                t = strip_sites(fa.term_of(c.args[0]))
-                if t[0] in ("subscript", "index", "elem") and t[1] == ("attr", nodep, "args"):
-                    arg_visits.append(c)
+        arg_visits = [e for e in evs if e.name == "visit" and e.args and e.args[0][0] in ("subscript", "index", "elem") and e.args[0][1] == ("attr", nodep, "args")]
         run.check(len(arg_visits) >= 1, "C05.R3", vc, vc.node, "call arguments are resolved", "the arguments of an inlined call are never visited (helpers called in arguments stay un-inlined and outer substitutions are not applied)")
-        for c in arg_visits:
-            cn = cfg.node_of(c)
-            before = cfg.dominates(cn, pn) and cn is not pn or (cn is pn and _inside(c, pushes[0]))
-            # an argument visited in the same statement that creates the map, which precedes the push
-            run.check(not _after(cfg, pn, cn) and (cn is not pn or _inside(c, pushes[0])), "C05.R3", vc, stmt_of(c), "argument resolved before the helper's parameter map is pushed", "an argument of the inlined call is resolved after the helper's parameter map has been pushed: a later argument that mentions the name of an earlier parameter is rewritten against the helper's bindings instead of the caller's (sub(10, a) -> 10 - 10)", "build the complete map first, then push it")
+        for e in arg_visits:
+            if e.site is not push.site:
+                late = reaches(cfg, push.site, e.site)
+            elif e.owner is push.owner:
+                oc = ctx.analysis(e.owner).cfg
+                late = reaches(oc, oc.node_of(push.call), oc.node_of(e.call)) or (oc.node_of(push.call) is oc.node_of(e.call) and not _inside(e.call, push.call))
+            else:
+                late = True
+            run.check(not late, "C05.R3", vc, stmt_of(e.call) if e.owner is vc else vc.node, "argument resolved before the helper's parameter map is pushed", "an argument of the inlined call is resolved after the helper's parameter map has been pushed: a later argument that mentions the name of an earlier parameter is rewritten against the helper's bindings instead of the caller's (sub(10, a) -> 10 - 10)", "build the complete map first, then push it")
         if complete:
             key_t, val_t = mt[2][1][0], mt[2][1][1]
             ok_k = key_t[0] == "attr" and key_t[2] == "arg" and contains(key_t, lambda s: s == ("attr", ("attr", ("attr", nodep, "func"), "args"), "args"))
             ok_v = val_t[0] == "visit" and contains(val_t, lambda s: s == ("attr", nodep, "args"))
             same_index = _same_index(key_t, val_t)
-            run.check(ok_k and ok_v and same_index, "C05.R3", vc, stmt_of(pushes[0]), "map binds the i-th parameter name to the visited i-th argument", f"parameter map is {show(mt)[:160]}: parameters and arguments are not paired positionally")
+            run.check(ok_k and ok_v and same_index, "C05.R3", vc, at_push, "map binds the i-th parameter name to the visited i-th argument", f"parameter map is {show(mt)[:160]}: parameters and arguments are not paired positionally")
     # visit_Name: innermost first, shadow entries leave the node
     fn = ctx.analysis(vn)
     loops = [n for n in own_nodes(vn) if isinstance(n, ast.For)]
-    ok_rev = len(loops) == 1 and isinstance(loops[0].iter, ast.Call) and isinstance(loops[0].iter.func, ast.Name) and loops[0].iter.func.id == "reversed" and strip_sites(fn.term_of(loops[0].iter.args[0], fn.cfg.node_of(loops[0]))) == ("attr", ("param", vn.pos_params[0]), "_arg_map_list")
+    ok_rev = len(loops) == 1 and isinstance(loops[0].iter, ast.Call) and isinstance(loops[0].iter.func, ast.Name) and loops[0].iter.func.id == "reversed" and strip_sites(fn.term_of(loops[0].iter.args[0], fn.cfg.node_of(loops[0]))) == ("attr", ("param", vn.pos_params[0]), STACK)
     run.check(ok_rev, "C05.R3", vn, loops[0] if loops else vn.node, "visit_Name searches the maps innermost-first", "helper parameter lookup is not innermost-first: with nested helpers that re-use a parameter name the outer binding wins")
     rt = strip_sites(fn.return_term())
     nn = ("param", vn.pos_params[1])
